@@ -91,7 +91,9 @@ def install_tokens(ctx):
         return mk(ctx, 'Subscription', 'subscriptions/subscription',
                   name=mk(ctx, 'SubscriptionName', project_id=StrTok(s_proj(tok)), subscription_id=StrTok(s_id(tok))),
                   topic=WeakV(ArcTok(s_topic(tok), 'Topic'), s_topic_alive(tok)), internal_id=S(s_iid(tok), 'u32'),
-                  sender=SenderM('subscription', tok), observer=Opaque('observer'))
+                  sender=SenderM('subscription', tok),
+                  observer=ArcCell(Cell(mk(ctx, 'SubscriptionObserver', notify_messages_available=NotifyM('messages_available'),
+                                           deleted_recv=__import__('models_async').Leaf('deleted', tok), deleted_send=Opaque('deleted_send')), 'observer')))
     ctx.tok_kinds['Topic'] = topic
     ctx.tok_kinds['Subscription'] = subscription
     ctx.tok_ufs = {'topic_proj': t_proj, 'topic_id': t_id, 'topic_iid': t_iid,
